@@ -45,7 +45,9 @@ ASSUMES = [
     "sizes handed to inner widgets with a component < 1 are outside the statement's 'all sizes >= 1' and are not judged for that inner widget; a failure they cause is attributed to the nearest enclosing widget that was handed a valid size",
     "screen-column width of a content row is computed by vmon.models.grid (wcwidth tables for utf8; bytes for euc-jp / ascii), independent of urwid.str_util",
     "for inner widgets rows()/pack() are evaluated by the monitor right after render (before the canvas is cached); for the root they are evaluated before render with the cache cleared",
-    "a failure inside a widget that a bundled class builds internally (Button's Columns, LineBox's Pile, GridFlow's Pile ...) is attributed to that bundled class",
+    "a failure inside a widget that a bundled class builds internally (Button's Columns, LineBox's Pile, GridFlow's Pile ...) is attributed to that bundled class (taken from the structure of the tree)",
+    "signature = C01|blamed class|failure kind + raise site, or violated clause|size class of the size the blamed widget was handed (fixed / tiny: a dimension <= 3 / ordinary); an exception raised by a widget that had itself been handed a size outside the domain is grouped as the blamed parent's 'hands-child:size<1' or 'hands-child:mode-not-reported', whatever the child raised",
+    "every evaluation uses a freshly built tree and a cleared CanvasCache: state left behind by earlier renders is the business of C06/C07/C20, not of this check",
     "weights are positive; given sizes are >= 1; empty Pile / Columns / GridFlow / ListBox are included (documented special case)",
 ]
 REQUIRE = {
